@@ -48,6 +48,10 @@ def validate_contract(chk: Check, repo: Repo) -> None:
         txt = ast.unparse(r.ast.value)
         if txt == "payload.value":
             good = facts.get("cls.payload_length == len(payload.value)") is True and facts.get("isinstance(payload, DPTArray)") is True and facts.get("cls.payload_type is DPTArray") is True
+            # ... and only when every element is an integer: DPTArray range-checks integers only, so a list from JSON can
+            # hold floats or text - the decoders index, shift and mask these elements (TypeError) or copy them into the value
+            octets = any(v and a.startswith("all(") and "isinstance(" in a and ", int)" in a and "payload.value" in a for a, v in mf[r.id])
+            chk.ob("decoders-see-octets-only", fi.site(r.ast), octets, "validate_payload hands the elements to the decoder " + ("only after all(isinstance(.., int) ..) held" if octets else "without checking that they are integers"), key="validate-octets")
         elif txt == "(payload.value,)":
             good = facts.get("payload.value >= 2 ** cls.payload_length") is False and facts.get("isinstance(payload, DPTBinary)") is True and facts.get("cls.payload_type is DPTBinary") is True
         else:
